@@ -566,7 +566,9 @@ def gen_c08(rng, n, tier):
                     txs.append(f"raw {signer} {to} {r.choice(HEX_JUNK + ['nil'])}")
                     tags.add("mal:raw-payload")
                 elif k < 0.65:
-                    to = r.choice(["interchain", "txmgr", "store", "u1", "0x0000000000000000000000000000000000000abc"])
+                    # (vm type 1 = XVM: deploy to the zero address, invoke of a code-less address, no receiver at all)
+                    to = r.choice(["interchain", "txmgr", "store", "u1", "0x0000000000000000000000000000000000000abc", "nil", "nil",
+                                   "0x0000000000000000000000000000000000000000"])
                     typ = r.choice([0, 1, 2, 3, 99])
                     vmt = r.choice([0, 1, 2, 99])
                     amt = r.choice(["~", "0", "1", "abc", "-1", "1" + "0" * 80])
@@ -599,7 +601,7 @@ def gen_c08(rng, n, tier):
                     txs[-1] = f"sig:{kind} " + txs[-1]
                     tags.add("mal:sig-" + kind)
                 if r.random() < 0.05:
-                    txs.append(f"rawtd {signer} nil {r.choice([0, 0, 1])} 0 {r.choice(['1', '0', '~', '5'])} nil")
+                    txs.append(f"rawtd {signer} nil {r.choice([0, 0, 1, 1, 2])} {r.choice([0, 0, 1, 1, 2])} {r.choice(['1', '0', '~', '5'])} {r.choice(['nil', 'nil', '00', '0061736d'])}")
                     tags.add("mal:no-receiver")
             ops.append("block " + " | ".join(txs))
         ops.append("q height")
